@@ -1,9 +1,9 @@
 """C14 / C08 / C07 type-level and effect rules: PURE-SELF, PURE-FREEZE, DET-EFFECT, PERM-MAP, and the
 code mapper rules B-MAP / CW-MAP(get)."""
-from . import core
+from . import core, coll
 from .core import Callee, walk, show
 from .view import FnView, pnorm, OPTION
-from .pat import m, ANY, V, K, Par, C, F, E, P, B, Phi, members
+from .pat import m, ANY, V, K, Par, C, F, E, P, B, Phi, members, It
 from .da import Sites, endswith, anykey
 from .search import switches_on, opt_arms, bool_arms, is_const
 from .roles import reachable_bodies
@@ -234,22 +234,20 @@ def rule_mapper(ctx, R, rules=None):
                   "table[c] must be the enumeration index of c in `sorted` (codes are dense 0..alphabet_size); stores %s"
                   % [(show(s["tgt"]), show(s["val"])) for s in sts])
         # sorted: pairs (c, f) of the histogram with f != 0
-        pushes = [s for s in S.keyed(lambda k: k == "alloc::vec::Vec::push") if core.same(s["args"][0], sorted_t)]
-        okp = len(pushes) == 1
+        adds = coll.additions(S, lambda t: core.same(t, sorted_t))
+        okp = len(adds) == 1
+        it = It(C("core::iter::Iterator::enumerate", C("core::slice::iter", Par(1))))
         if okp:
-            src = C("core::iter::Iterator::filter", C("core::iter::Iterator::enumerate", C("core::slice::iter", Par(1))), ANY)
-            it = P(C("core::iter::Iterator::next", src))
-            okp = m(("tuple", (F(it, "0", "(tuple)"), F(it, "1", "(tuple)"))), pushes[0]["args"][1])
+            okp = m(("tuple", (F(it, "0", "(tuple)"), F(it, "1", "(tuple)"))), adds[0].val)
         ctx.check(okp, "B-MAP", nb, "sorted-from-histogram", nb.span,
-                  "`sorted` must hold (code point, frequency) for the non-zero entries of the histogram; pushes %s" % [show(s["args"][1]) for s in pushes])
-        # every code point that occurs gets a code: the filter keeps exactly f != 0
-        flt = S.keyed(lambda k: core.callee_base(k) == "core::iter::Iterator::filter")
-        okf = len(flt) == 1
-        if okf:
-            cl = flt[0]["args"][1]
-            cr = S.fv.closure_ret(cl[1]) if cl[0] == "closure" else None
-            okf = cr is not None and cr[0] == "bin" and cr[1] == "Ne" and (is_const(cr[2], 0) or is_const(cr[3], 0))
-        ctx.check(okf, "B-MAP", nb, "keeps-all-occurring", nb.span, "every code point with a non-zero count must be mapped (filter f != 0)")
+                  "`sorted` must hold (code point, frequency) for the non-zero entries of the histogram; added %s" % [show(a.val) for a in adds])
+        # every code point that occurs gets a code: an entry is kept exactly when its count is not zero (filter / if / continue)
+
+        def is_zero(t):
+            return t[0] == "bin" and t[1] == "Eq" and ((is_const(t[3], 0) and m(F(it, "1", "(tuple)"), t[2])) or
+                                                      (is_const(t[2], 0) and m(F(it, "1", "(tuple)"), t[3])))
+        okf = len(adds) == 1 and adds[0].kept_iff(is_zero, False)
+        ctx.check(okf, "B-MAP", nb, "keeps-all-occurring", nb.span, "every code point with a non-zero count must be mapped (kept iff f != 0)")
     if want("B-MAP"):
         # who-may-write: the mapper's table and alphabet size are fixed by CodeMapper::new (and the image reader);
         # nothing renumbers or shrinks them afterwards, so I5 (every code < alphabet_size <= block length) is preserved
